@@ -14,7 +14,7 @@ import TempestVerif.Model.Ess
           weights_trimmed = weights[mask]
           weights_trimmed /= np.sum(weights_trimmed)
           ess_trimmed = 1.0 / np.sum(weights_trimmed**2.0)
-          if ess_trimmed / ess_total >= ess: break
+          if ess_trimmed / ess_total >= ess or i == 0: break     -- (`or i == 0`: fix 8ceb8ba, bottom of the grid)
           i -= 1
       return samples[mask], weights_trimmed
 
@@ -79,12 +79,12 @@ def step (wn sorted : List α) (essTotal p : α) : Option (Step α) :=
     ⟨thr, mask, wt, Sc.div essTrim essTotal⟩
 
 /-- the `while True` loop started at grid index `i`: index and data of the pass that hit `break`.
-    `none`: the index would go below 0 (Python would wrap around to `percentiles[-1]`) or the array is empty. -/
+    At `i = 0` the loop breaks whatever the ratio is.  `none`: the array is empty (no percentile). -/
 def search (wn sorted : List α) (essTotal essFrac : α) (bins : Nat) : Nat → Option (Nat × Step α)
   | 0 =>
     match step wn sorted essTotal (linspace0_99 bins 0) with
     | none => none
-    | some s => if Sc.le essFrac s.ratio then some (0, s) else none
+    | some s => some (0, s)
   | i + 1 =>
     match step wn sorted essTotal (linspace0_99 bins (i + 1)) with
     | none => none
